@@ -151,19 +151,19 @@ PROPS = {
     "C10": {"kinds": ["GAP", "EXCLUSION-CONV"], "stages": lock_stages("C10", 8000, 60000), "assumptions": LOCK_ASSUME},
     "C11": {"kinds": ["ORDER"], "stages": lock_stages("C11", 8000, 60000), "assumptions": LOCK_ASSUME},
     "C12": {"kinds": ["LEAK", "NODE_BOUND", "STALE-NODE", "CRASH-UAF"], "stages": lock_stages("C12", 8000, 60000), "assumptions": LOCK_ASSUME},
-    "C05": {"kinds": ["IDRANGE", "IDSTABLE", "IDUNIQUE"], "stages": thread_stages("C05", [1, 2, 3, 4, 6, 8, 70], 300, [1, 2, 3, 4, 5, 6, 7, 8, 70], 4000),
+    "C05": {"kinds": ["IDRANGE", "IDSTABLE", "IDUNIQUE", "CRASH", "CRASH-UAF"], "stages": thread_stages("C05", [1, 2, 3, 4, 6, 8, 70], 300, [1, 2, 3, 4, 5, 6, 7, 8, 70], 4000),
             "assumptions": THREAD_ASSUME},
-    "C14": {"kinds": ["STUCK", "FINAL_BUSY", "ID-STARVE"], "stages": thread_stages("C14", [1, 2, 3, 4, 6, 8], 300, [1, 2, 3, 4, 5, 6, 7, 8, 70], 4000), "assumptions": THREAD_ASSUME},
-    "C15": {"kinds": ["HB-REUSE", "HB-LIVE", "HB-EXIT"], "stages": thread_stages("C15", [2, 3, 4, 70], 600, [1, 2, 3, 4, 5, 6, 7, 8, 70], 4000), "assumptions": THREAD_ASSUME},
-    "C04": {"kinds": ["PIN-LIST", "PIN-MIN", "GUARD-UNPINNED"], "stages": thread_stages("C04", [2, 3, 5, 70], 400, [2, 3, 4, 5, 6, 7, 8, 70], 3000), "assumptions": THREAD_ASSUME},
-    "C16": {"kinds": ["FWD-BLOCKED", "EPOCH-STEP", "CUR-DECREASED", "MIN-GT-CUR", "QUIESCENT-LIST", "QUIESCENT-MIN"],
+    "C14": {"kinds": ["STUCK", "FINAL_BUSY", "ID-STARVE", "CRASH", "CRASH-UAF"], "stages": thread_stages("C14", [1, 2, 3, 4, 6, 8], 300, [1, 2, 3, 4, 5, 6, 7, 8, 70], 4000), "assumptions": THREAD_ASSUME},
+    "C15": {"kinds": ["HB-REUSE", "HB-LIVE", "HB-EXIT", "CRASH", "CRASH-UAF"], "stages": thread_stages("C15", [2, 3, 4, 70], 600, [1, 2, 3, 4, 5, 6, 7, 8, 70], 4000), "assumptions": THREAD_ASSUME},
+    "C04": {"kinds": ["PIN-LIST", "PIN-MIN", "GUARD-UNPINNED", "CRASH", "CRASH-UAF"], "stages": thread_stages("C04", [2, 3, 5, 70], 400, [2, 3, 4, 5, 6, 7, 8, 70], 3000), "assumptions": THREAD_ASSUME},
+    "C16": {"kinds": ["FWD-BLOCKED", "EPOCH-STEP", "CUR-DECREASED", "MIN-GT-CUR", "QUIESCENT-LIST", "QUIESCENT-MIN", "CRASH", "CRASH-UAF"],
             "stages": thread_stages("C16", [2, 3, 5, 70], 400, [2, 3, 4, 5, 6, 7, 8, 70], 3000), "assumptions": THREAD_ASSUME},
     "C17": {"kinds": ["LIST-OWNER", "LIST-ORDER", "LIST-PREV", "LIST-STABLE", "GUARD-EPOCH", "GUARD-MOVE", "CRASH-UAF", "CRASH"],
             "stages": thread_stages("C17", [2, 3, 5, 70], 400, [2, 3, 4, 5, 6, 7, 8, 70], 3000), "assumptions": THREAD_ASSUME},
-    "C06": {"kinds": ["ZIPF-EXCEPTION", "ZIPF-RANGE", "ZIPF-INVCDF", "ZIPF-INVCDF-SEAM", "ZIPF-DEFAULT", "CRASH"], "stages": zipf_stages("C06", 100000, 600000),
+    "C06": {"kinds": ["ZIPF-EXCEPTION", "ZIPF-RANGE", "ZIPF-INVCDF", "ZIPF-INVCDF-SEAM", "ZIPF-DEFAULT", "CRASH", "CRASH-UAF"], "stages": zipf_stages("C06", 100000, 600000),
             "native_shrink": True, "assumptions": ZIPF_ASSUME},
     "C18": {"kinds": ["ZIPF-EXCEPTION", "ZIPF-CDF-VALUE", "ZIPF-CDF-MONOTONE", "ZIPF-CDF-LAST", "ZIPF-APPROX-EXACT", "ZIPF-APPROX-CLOSE", "ZIPF-APPROX-CLOSE-TAIL",
-                      "ZIPF-APPROX-CLOSE-NEAR1", "CRASH"], "stages": zipf_stages("C18", 9000, 40000), "native_shrink": True, "assumptions": ZIPF_ASSUME},
+                      "ZIPF-APPROX-CLOSE-NEAR1", "CRASH", "CRASH-UAF"], "stages": zipf_stages("C18", 9000, 40000), "native_shrink": True, "assumptions": ZIPF_ASSUME},
     "C19": {"kinds": ["ZIPF-EXCEPTION", "ZIPF-PURE", "ZIPF-SHARED", "ZIPF-REJECT", "ZIPF-RACE", "CRASH", "CRASH-UAF"], "stages": zipf_c19_stages(3500, 30000), "native_shrink": True,
             "assumptions": ZIPF_ASSUME + ["the ThreadSanitizer stage judges a data race between const calls (operator(), GetCDF) of threads sharing one generator as a "
                                           "violation (ZIPF-RACE): such a race is a write inside a call that must not change the generator"]},
